@@ -49,6 +49,10 @@ def points(tier: str) -> List[Dict[str, Any]]:
             for ttl_arg in (None, 300):
                 pts.append({"kind": "peer", "mix": mix, "ttls": "default", "allow": allow, "tc": tc, "c2": None, "chain": 0,
                             "used": used, "ttl_arg": ttl_arg})
+    # pre-populated cache whose conflicting pointers (TTL 4500 s) were learnt 30 / 60 / 90 / 99.9 % of their TTL ago
+    for allow, chain, age in itertools.product((False, True), (1, 2), (1_350_000, 2_700_000, 4_050_000, 4_495_000)):
+        pts.append({"kind": "peer", "mix": "v4", "ttls": "default", "allow": allow, "tc": None, "c2": None, "chain": chain,
+                    "chain_age_ms": age})
     # no host name given: the library then uses the instance name as host name - which instance name, if it renames?
     for mix, allow, tc in itertools.product(("v4", "dual"), (False, True), (None, -100, 100, 300)):
         pts.append({"kind": "peer", "mix": mix, "ttls": "default", "allow": allow, "tc": tc, "c2": None, "chain": 0,
@@ -209,6 +213,11 @@ def run_point(p: Dict[str, Any], verbose: bool = False) -> Tuple[Optional[Dict[s
             for k in range(p["chain"]):
                 w.net.inject(a, conflict_pkt(nth_name(desc.name, k + 1), 10 + k), ("10.0.0.60", 5353))
             w.settle()
+            if p.get("chain_age_ms"):
+                # the taken names were learnt a while ago (their owner keeps silent during the probes): a cached pointer
+                # counts as a conflict for as long as it has not expired
+                w.advance(p["chain_age_ms"])
+                t0 = w.now_ms + 1000
             tc, c2 = p["tc"], p["c2"]
             for k, off in enumerate(p.get("noise") or ()):
                 other = wire.encode(70 + k, 0x8400, (), [("PTR", "_other._tcp.local.", 1, 4500, f"n{k}._other._tcp.local."),
